@@ -167,7 +167,9 @@ var invalidClasses = []invalidClass{
 			case 2:
 				form, val = "too-many-colons", fmt.Sprintf("127.0.0.1:%d:%d", port(rng), port(rng))
 			default:
-				form, val = "colon-only", ":"
+				// (":" — empty host and empty port — is NOT judged: it is of the documented [host]:port shape and
+				// means "any interface, system-chosen port"; whether that counts as malformed is not settled by the statement.)
+				form, val = "empty-host-garbage-port", ":http:x"
 			}
 			if which == "http_address" {
 				s.del("host", "port")
